@@ -62,11 +62,14 @@ class Prop(PropBase):
         try:
             lin, circ, st, inten = z.to_linear(), z.to_circular(), z.to_stokes(), z.to_intensity()
             comps = [st[k] for k in "IQUV"] + [st.stokesI, st.stokesQ, st.stokesU, st.stokesV]
-            try:
-                st["X"]
-                keyerr = False
-            except KeyError:
-                keyerr = True
+            keyerr = True
+            # every string that is not one of the four names is refused (substrings, lower case, several names, empty)
+            for bad in ("X", "", "IQ", "QU", "UV", "IQUV", "i", "q", "II", "VI", " I", "I ", "Stokes I", "0"):
+                try:
+                    st[bad]
+                    keyerr = False
+                except KeyError:
+                    pass
         except Exception as e:
             return {"err": err_name(e)}
 
